@@ -15,6 +15,7 @@
   `Fp`/`Rat`, see Driver.C19User).
 -/
 import EasyMl.Lemmas.Numeric
+import EasyMl.Lemmas.WrapperOps
 
 namespace EasyMl.C19
 open EasyMl EasyMl.Num
@@ -188,6 +189,59 @@ theorem trace_identities (t : IntTy) (x : Trace (Val t)) :
   cases x
   simp [Trace.add, Trace.mul, traceZero, traceOne, Trace.constant, wAdd, wMul, zero, one,
     BitVec.one_mul, BitVec.mul_one]
+
+/-! ### `Trace` / `Record` operators inherit the element operators
+
+The model has a single answer per operation (`traceBin`, `traceScalar`, `recordBin`,
+`recordScalar` mirror the `&a op &b` impls); that all four owned/borrowed operand forms of the
+real operators give this answer, with the operands in this order, is what the correspondence
+checks on every run.  Here: for *any* element arithmetic `A` (panics included), the number of a
+trace / record result is the element operator applied to the operands' numbers in the same order,
+and a record result is a constant exactly when both operands are. -/
+
+theorem trace_ops_inherit_number {α : Type} (A : Arith α) (op : BinOp) (a b r : Trace α)
+    (h : traceBin A op a b = .ok r) : A.bin op a.number b.number = .ok r.number := by
+  cases op <;> simp only [traceBin, Arith.bin] at h ⊢ <;>
+    (obtain ⟨n, hn, h⟩ := bind_eq_ok _ _ _ h; rw [hn]) <;>
+    (repeat (obtain ⟨_, _, h⟩ := bind_eq_ok _ _ _ h)) <;>
+    (have := pure_eq_ok _ _ h; subst this; rfl)
+
+theorem trace_scalar_inherits_number {α : Type} (A : Arith α) (op : BinOp) (a r : Trace α) (c : α)
+    (h : traceScalar A op a c = .ok r) : A.bin op a.number c = .ok r.number := by
+  cases op <;> simp only [traceScalar, Arith.bin] at h ⊢ <;>
+    (obtain ⟨n, hn, h⟩ := bind_eq_ok _ _ _ h; rw [hn]) <;>
+    (repeat (obtain ⟨_, _, h⟩ := bind_eq_ok _ _ _ h)) <;>
+    (have := pure_eq_ok _ _ h; subst this; rfl)
+
+/-- tape bookkeeping of `Record op Record` on a fresh tape: the result has a tape iff an operand
+    has one, sits right after the variable operands, and has a derivative exactly for them -/
+theorem record_ops_constness {α : Type} (A : Arith α) (op : BinOp) (va vb : Bool) (a b : α)
+    (r : RecOut α) (h : recordBin A op va vb a b = .ok r) :
+    r.hasHistory = (va || vb) ∧ r.index = va.toNat + vb.toNat ∧ r.dx.isSome = va ∧ r.dy.isSome = vb := by
+  cases va <;> cases vb <;> cases op <;> simp only [recordBin] at h <;>
+    (repeat (obtain ⟨_, _, h⟩ := bind_eq_ok _ _ _ h)) <;>
+    (have := pure_eq_ok _ _ h; subst this; simp)
+
+/-- the number of `a op b` is the element operator on the numbers, operands in order — except
+    that `constant + variable` and `constant * variable` are computed commuted, as the code does
+    (`rhs + &self.number`) -/
+theorem record_ops_inherit_number {α : Type} (A : Arith α) (op : BinOp) (va vb : Bool) (a b : α)
+    (r : RecOut α) (h : recordBin A op va vb a b = .ok r) :
+    (if (!va && vb) && (op = .add || op = .mul) then A.bin op b a else A.bin op a b) = .ok r.number := by
+  cases va <;> cases vb <;> cases op <;> simp only [recordBin] at h <;>
+    (obtain ⟨n, hn, h⟩ := bind_eq_ok _ _ _ h) <;>
+    (repeat (obtain ⟨_, _, h⟩ := bind_eq_ok _ _ _ h)) <;>
+    (have := pure_eq_ok _ _ h; subst this; simpa using hn)
+
+-- the order of the operands matters: `5 - 7` and `7 - 5` differ in every arithmetic used
+example : (traceBin (arithWrapping .u8) .sub ⟨5#8, 16#8⟩ ⟨7#8, 3#8⟩).isOk = true := by decide
+example : (match traceBin (arithPlain .i64) .sub ⟨ofInt .i64 5, ofInt .i64 16⟩ ⟨ofInt .i64 7, ofInt .i64 3⟩ with
+    | .ok t => (toInt .i64 t.number, toInt .i64 t.derivative) | .panic _ => (0, 0)) = (-2, 13) := by decide
+example : (match recordBin (arithPlain .i64) .div true true (ofInt .i64 (-13)) (ofInt .i64 4) with
+    | .ok r => (toInt .i64 r.number, r.hasHistory, r.index) | .panic _ => (0, false, 0)) = (-3, true, 2) := by
+  decide
+-- panics propagate: division by a zero number
+example : (traceBin (arithWrapping .u8) .div ⟨5#8, 1#8⟩ ⟨0#8, 3#8⟩).isOk = false := by decide
 
 /-! ### floats: always succeed, with the nearest value -/
 
